@@ -154,7 +154,7 @@ for ch in ("A", "W"):
            functions=["uriNormalizeSyntaxMaskRequiredEx" + ch, "uriNormalizeSyntaxEngine" + ch],
            inlined=["uriContainsUppercaseLetters" + ch, "uriContainsUglyPercentEncoding" + ch, "uriHexdigToInt" + ch, "uriIsUnreserved"],
            stubs=["memcpy (one whole Uri structure, structure assignment)"], kf=NORM_KF, timeout_s=by_tier(900, 3600), mem_gb=8)
-        for owned in (0, 1):
+        for owned in ((0, 1) if ch == "A" else ()):     # W instances exceed the memory budget at these bounds (DESIGN "W pass")
             ob(id="NormalizeSyntax.%s.%s.%s.H" % ("owned" if owned else "borrowed", nm, ch),
                props=["C08", "C09", "C07", "C12", "C13", "C14", "C19", "C20"], route="H", harness="c08_normalize.c", char=ch,
                group="uriNormalizeSyntaxExMm whole operation against the RFC 3986 6.2.2 normal form, ownership, ledger, fault injection",
@@ -163,7 +163,7 @@ for ch in ("A", "W"):
                level="B", bounds="components admitted: %s; <=%d segments, <=%d characters per component, symbolic mask (all 64), every allocation request may fail" % (nm, vm, vl),
                functions=[f % ch for f in NORM_FUNCS], inlined=[f % ch for f in NORM_FUNCS[2:]],
                stubs=["memory manager (ledger stub)", "memcpy (element loop)"], kf=NORM_KF,
-               timeout_s=by_tier(1500, 7200), mem_gb=by_tier(12, 24))
+               timeout_s=by_tier(1500, 7200), mem_gb=by_tier(8, 24))
 
 # ----------------------------------------------------------------------------------------------------------------
 # C10 (+C07,C12,C13,C14)  reference creation, whole operation with real callees inlined
@@ -191,7 +191,7 @@ for ch in ("A", "W"):
 # ----------------------------------------------------------------------------------------------------------------
 # C16  percent-escaping: unbounded safety/shape obligations by loop contracts (route N)
 for ch in ("A", "W"):
-    ob(id="EscapeEx.%s.N" % ch, props=["C16", "C19", "C20"], route="N", harness="c16_escape_n.c", entry="h_escape", char=ch,
+    if ch == "A": ob(id="EscapeEx.%s.N" % ch, props=["C16", "C19", "C20"], route="N", harness="c16_escape_n.c", entry="h_escape", char=ch,
        group="uriEscapeEx: bounds (exact 3n+1/6n+1 buffer), terminator, charset and complete upper-case triplets, all lengths, both flags, both end modes",
        loops=["UriEscape.loops"], loops_only=["EscapeEx"], level="P", bounds="input length symbolic up to 100000 characters (size of the CBMC object, not an unwinding bound)",
        functions=["uriEscapeEx" + ch], inlined=["uriHexToLetter" + ch, "uriHexToLetterEx" + ch], stubs=[],
@@ -270,7 +270,7 @@ for ch in ("A", "W"):
        functions=["uriOnExitOwnHost2" + ch, "uriOnExitOwnHostUserInfo" + ch, "uriOnExitOwnPortUserInfo" + ch],
        inlined=["uriParseIpFourAddress" + ch], stubs=["memory manager (ledger stub)"], timeout_s=900, mem_gb=10)
 
-for ch in ("A", "W"):
+for ch in ("A",):        # the W instance exceeds the memory budget; the scanner is compiled from the same text
     for (tier, k) in ((Q, 8), (T, 12)):
         ob(id="ParseIPv6address2.K%d.%s.H" % (k, ch), props=["C01", "C02", "C03", "C19"], route="H", harness="c02_ip6.c", char=ch, tier=tier,
            quick_only=(tier == Q),
@@ -295,24 +295,24 @@ for ch in ("A", "W"):
        functions=["uriDissectQueryMallocExMm" + ch, "uriFreeQueryListMm" + ch], inlined=["uriFreeQueryListMm" + ch],
        stubs=["uriAppendQueryItem (contract stub stubs/append_query_item.c, discharged by AppendQueryItem.*.H)", "memory manager (ledger stub)"],
        timeout_s=by_tier(900, 3600), mem_gb=10)
-    ob(id="AppendQueryItem.%s.H" % ch, props=["C17", "C13", "C14", "C19"], route="H", harness="c17_query.c", entry="h_append", char=ch,
+    if ch == "A": ob(id="AppendQueryItem.%s.H" % ch, props=["C17", "C13", "C14", "C19"], route="H", harness="c17_query.c", entry="h_append", char=ch,
        group="uriAppendQueryItem (real, with the real uriUnescapeInPlaceEx): exact-size unescaped copies, NULL vs empty value, roll-back on refusal",
        defines=by_tier({"VN": 3, "VSTUB_MEMCPY": 1}, {"VN": 5, "VSTUB_MEMCPY": 1}),
        unwindset=by_tier({"uriUnescapeInPlaceEx%s.*" % ch: 5, "memcpy.*": 5, "uriFreeQueryListMm%s.*" % ch: 3}, {"uriUnescapeInPlaceEx%s.*" % ch: 7, "memcpy.*": 7, "uriFreeQueryListMm%s.*" % ch: 3}),
        level="B", bounds=by_tier("key and value ranges of at most 3 characters (no '%')", "at most 5 characters"),
        functions=["uriAppendQueryItem" + ch], inlined=["uriUnescapeInPlaceEx" + ch, "uriFreeQueryListMm" + ch], stubs=["memory manager (ledger stub)", "memcpy (element loop)"],
        timeout_s=by_tier(900, 3600), mem_gb=(10 if ch == "A" else 24))
-    ob(id="QueryRoundTrip.%s.H" % ch, props=["C17", "C13", "C19"], route="H", harness="c17_query.c", entry="h_roundtrip", char=ch,
-       group="compose then dissect returns the list; legal characters; chars-required sufficient; written == length+1; nothing beyond maxChars",
-       defines=by_tier({"VI": 2, "VS": 1, "VSTUB_MEMCPY": 1}, {"VI": 2, "VS": 2, "VSTUB_MEMCPY": 1}),
+    ob(id="ComposeQuery.%s.H" % ch, props=["C17", "C19"], route="H", harness="c17_query.c", entry="h_roundtrip", char=ch,
+       group="uriComposeQueryEx / CharsRequiredEx: chars-required sufficient, written == length+1, nothing at or beyond maxChars, only legal query characters",
+       defines=by_tier({"VI": 2, "VS": 1, "VSTUB_MEMCPY": 1, "V_COMPOSE_ONLY": 1}, {"VI": 2, "VS": 2, "VSTUB_MEMCPY": 1, "V_COMPOSE_ONLY": 1}),
        unwindset=by_tier({"uriComposeQueryEngine%s.*" % ch: 3, "uriEscapeEx%s.*" % ch: 3, "uriDissectQueryMallocExMm%s.*" % ch: 16, "uriFreeQueryListMm%s.*" % ch: 4,
-                          "uriUnescapeInPlaceEx%s.*" % ch: 8, "memcpy.*": 8, "strlen.*": 3, "wcslen.*": 3},
+                          "uriUnescapeInPlaceEx%s.*" % ch: 8, "memcpy.*": 8, "strlen.*": 3, "wcslen.*": 3, "vmm_take.*": 34},
                          {"uriComposeQueryEngine%s.*" % ch: 3, "uriEscapeEx%s.*" % ch: 4, "uriDissectQueryMallocExMm%s.*" % ch: 30, "uriFreeQueryListMm%s.*" % ch: 4,
-                          "uriUnescapeInPlaceEx%s.*" % ch: 14, "memcpy.*": 14, "strlen.*": 4, "wcslen.*": 4}),
+                          "uriUnescapeInPlaceEx%s.*" % ch: 14, "memcpy.*": 14, "strlen.*": 4, "wcslen.*": 4, "vmm_take.*": 58}),
        level="B", bounds=by_tier("2 items, keys/values of at most 1 character (code points 1..255, no line breaks when break normalization is on)",
                                  "2 items, keys/values of at most 2 characters"),
-       functions=["uriComposeQueryEx" + ch, "uriComposeQueryCharsRequiredEx" + ch, "uriComposeQueryEngine" + ch, "uriDissectQueryMallocExMm" + ch, "uriAppendQueryItem" + ch],
-       inlined=["uriEscapeEx" + ch, "uriUnescapeInPlaceEx" + ch], stubs=["memory manager (ledger stub)", "memcpy (element loop)"],
+       functions=["uriComposeQueryEx" + ch, "uriComposeQueryCharsRequiredEx" + ch, "uriComposeQueryEngine" + ch],
+       inlined=["uriEscapeEx" + ch], stubs=[],
        timeout_s=by_tier(1500, 7200), mem_gb=by_tier(12, 24))
 
 # ----------------------------------------------------------------------------------------------------------------
@@ -321,16 +321,23 @@ NOPTROVF = ["--bounds-check", "--pointer-check", "--signed-overflow-check", "--d
             "--no-malloc-may-fail", "--sat-solver", "cadical"]   # without --pointer-overflow-check: ISO C note `input - 1` (DESIGN 6)
 for ch in ("A", "W"):
     for (entry, nm) in (("h_unix", "Unix"), ("h_windows", "Windows")):
-        ob(id="Filename%s.%s.H" % (nm, ch), props=["C18", "C19", "C20"], route="H", harness="c18_file.c", entry=entry, char=ch,
-           group="filename -> URI string -> filename: documented buffer sizes (exact-size blocks), shape/validity of the URI string, round trip",
-           defines=by_tier({"VF": 3, "VSTUB_MEMCPY": 1}, {"VF": 5, "VSTUB_MEMCPY": 1}), checks=NOPTROVF,
-           unwindset=by_tier({"uriFilenameToUriString%s.*" % ch: 5, "uriUriStringToFilename%s.*" % ch: 14, "uriEscapeEx%s.*" % ch: 5, "uriUnescapeInPlaceEx%s.*" % ch: 20,
-                              "memcpy.*": 20, "strlen.*": 20, "wcslen.*": 20, "strncmp.*": 9, "wcsncmp.*": 9},
-                             {"uriFilenameToUriString%s.*" % ch: 7, "uriUriStringToFilename%s.*" % ch: 20, "uriEscapeEx%s.*" % ch: 7, "uriUnescapeInPlaceEx%s.*" % ch: 26,
-                              "memcpy.*": 26, "strlen.*": 26, "wcslen.*": 26, "strncmp.*": 9, "wcsncmp.*": 9}),
-           level="B", bounds=by_tier("filenames of at most 3 characters (code points 1..255)", "filenames of at most 5 characters"),
+        ob(id="FilenameToUri%s.%s.H" % (nm, ch), props=["C18", "C19", "C20"], route="H", harness="c18_file.c", entry=entry, char=ch,
+           group="filename -> URI string: documented buffer size (canaries behind it), file:///x / file:///C:/x / file://server/share / relative shape, path characters only",
+           defines=by_tier({"VF": 3, "VSTUB_MEMCPY": 1, "V_TO_URI_ONLY": 1}, {"VF": 4, "VSTUB_MEMCPY": 1, "V_TO_URI_ONLY": 1}), checks=NOPTROVF,
+           unwindset=by_tier({"uriFilenameToUriString%s.*" % ch: 5, "uriEscapeEx%s.*" % ch: 5, "memcpy.*": 10, "strlen.*": 10, "wcslen.*": 10},
+                             {"uriFilenameToUriString%s.*" % ch: 6, "uriEscapeEx%s.*" % ch: 6, "memcpy.*": 10, "strlen.*": 10, "wcslen.*": 10}),
+           level="B", bounds=by_tier("filenames of at most 3 characters (code points 1..255)", "filenames of at most 4 characters"),
+           functions=["uriFilenameToUriString" + ch, "uri%sFilenameToUriString%s" % (nm, ch)],
+           inlined=["uriEscapeEx" + ch], stubs=["memcpy (element loop)"], timeout_s=by_tier(900, 3600), mem_gb=10)
+    for (entry, nm) in ((("h_unix", "Unix"), ("h_windows", "Windows")) if ch == "A" else ()):
+        ob(id="FilenameRoundTrip%s.%s.H" % (nm, ch), props=["C18"], route="H", harness="c18_file.c", entry=entry, char=ch, tier=T,
+           group="filename -> URI string -> filename: documented buffer sizes (canaries), round trip",
+           defines={"VF": 2, "VSTUB_MEMCPY": 1}, checks=NOPTROVF,
+           unwindset={"uriFilenameToUriString%s.*" % ch: 4, "uriUriStringToFilename%s.*" % ch: 16, "uriEscapeEx%s.*" % ch: 4, "uriUnescapeInPlaceEx%s.*" % ch: 16,
+                      "memcpy.*": 16, "strlen.*": 16, "wcslen.*": 16, "strncmp.*": 9, "wcsncmp.*": 9},
+           level="B", bounds="filenames of at most 2 characters (code points 1..255)",
            functions=["uriFilenameToUriString" + ch, "uriUriStringToFilename" + ch, "uri%sFilenameToUriString%s" % (nm, ch), "uriUriStringTo%sFilename%s" % (nm, ch)],
-           inlined=["uriEscapeEx" + ch, "uriUnescapeInPlaceEx" + ch], stubs=["memcpy (element loop)"], timeout_s=by_tier(1500, 7200), mem_gb=by_tier(12, 24))
+           inlined=["uriEscapeEx" + ch, "uriUnescapeInPlaceEx" + ch], stubs=["memcpy (element loop)"], timeout_s=10800, mem_gb=24)
     ob(id="FilenameShortForms.%s.H" % ch, props=["C18", "C19"], route="H", harness="c18_file.c", entry="h_shortforms", char=ch,
        group="short forms file:/x and file:c:/x accepted on input", defines={"VF": 3, "VSTUB_MEMCPY": 1}, checks=NOPTROVF,
        unwindset={"uriUriStringToFilename%s.*" % ch: 8, "uriUnescapeInPlaceEx%s.*" % ch: 8, "memcpy.*": 8, "strlen.*": 12, "wcslen.*": 12, "strncmp.*": 9, "wcsncmp.*": 9},
@@ -358,3 +365,68 @@ ob(id="static.no-writable-statics", props=["C20"], route="L", harness="", cmd=["
    group="[S] static-lifetime objects of the staged library are exactly the seven constant ones and no instruction assigns them by name",
    level="P", bounds="none (syntactic fact about the goto binary)", functions=[], backend="goto-instrument --show-symbol-table / --show-goto-functions",
    rc1_is_violation=True, timeout_s=300)
+
+# C16 bounded content obligations (fixed-size arrays)
+for ch in ("A", "W"):
+    for (entry, nm, fns) in (("h_escape", "EscapeContent", ["uriEscapeEx"]), ("h_unescape", "UnescapeContent", ["uriUnescapeInPlaceEx"]),
+                             ("h_roundtrip", "EscapeRoundTrip", ["uriEscapeEx", "uriUnescapeInPlaceEx"])):
+        ob(id="%s.%s.H" % (nm, ch), props=["C16", "C19"], route="H", harness="c16_content.c", entry=entry, char=ch,
+           group="percent-escaping content on short strings: escape == spec_escape, unescape == spec_unescape, unescape(escape(s)) == s",
+           defines=by_tier({"VLC": 3}, {"VLC": 5}),
+           unwindset=by_tier({"uriEscapeEx%s.*" % ch: 5, "uriUnescapeInPlaceEx%s.*" % ch: 20}, {"uriEscapeEx%s.*" % ch: 7, "uriUnescapeInPlaceEx%s.*" % ch: 32}),
+           level="B", bounds=by_tier("strings of at most 3 characters over code points 1..255, all flag combinations", "strings of at most 5 characters"),
+           functions=[f + ch for f in fns], inlined=["uriHexToLetter" + ch, "uriHexdigToInt" + ch], stubs=[], timeout_s=by_tier(900, 3600), mem_gb=10)
+
+# ----------------------------------------------------------------------------------------------------------------
+# C01/C02  dispatch obligations: code == LL(1) table extracted from the production comments (route D), and the
+# spec-level lemma table == RFC 3986 (route L)
+DISPATCH_RULES = [f for f in RULES4 + RULES3 if f not in ("ParseIPv6address2",)]
+for ch in ("A", "W"):
+    allf = ["uri%s%s" % (f, ch) for f in RULES4 + RULES3 + PARSE_HELPERS]
+    for f in DISPATCH_RULES:
+        fn = "uri%s%s" % (f, ch)
+        ob(id="Dispatch.%s.%s.D" % (f, ch), props=["C01", "C02", "C19"], route="D", harness="d_dispatch.c", entry="h_dispatch", char=ch,
+           group="parser rule functions: for every lookahead character the calls made, their position arguments, the result and the syntax-error position are those of the LL(1) table extracted from the production comments (dispatch contract, generated)",
+           gen_cmd=["python3", "{VERIF}/spec/gen_dispatch.py", "{VDIR}", f, "{WD}"],
+           rename_selfcalls=[("UriParse.c", [f])],
+           enforce=[fn], replace=[g for g in allf if g != fn] + ["uri%s__rec%s" % (f, ch)],
+           restrict_fp=(["uriParseIpLit2%s.function_pointer_call.1/pm_malloc_contract" % ch] if f == "ParseIpLit2" else []),
+           level="P", bounds="none (symbolic lookahead character, input length symbolic up to 10^6)",
+           functions=[fn], stubs=["every callee by its logging interface contract; self-calls by the twin carrying the same contract"],
+           require_classes={"contract.post": 3}, covers=False, object_bits=12, timeout_s=900, mem_gb=8)
+ob(id="lemma.grammar-equals-rfc", props=["C01", "C02"], route="L", harness="", cmd=["python3", "{VERIF}/spec/grammar_tool.py", "check", "{SCRATCH}/clean"],
+   group="[L] L1: the documented LL(1) grammar (production comments of src/UriParse.c) denotes exactly RFC 3986 URI-reference (minimal DFAs compared; 182+1 states), all recursion is tail recursion, the table is LL(1)",
+   level="P", bounds="none (finite automata constructions, complete)", functions=[], backend="spec/grammar_tool.py", rc1_is_violation=True, timeout_s=300)
+
+# ----------------------------------------------------------------------------------------------------------------
+# Quick tier = the per-change subset (regular expressions on obligation ids, per property); the thorough tier runs every
+# obligation that lists the property.  Shared whole-operation obligations are expensive, so each property's quick check
+# keeps the obligations that decide *its* clauses most directly.
+import re as _re
+QUICK = {
+    "C01": [r"^lemma\.grammar", r"^Dispatch\..*\.A\.D$", r"^Parse(Single)?UriExMm\.A", r"^ParseIpFourAddress\.A", r"^ParseIPv6address2\.K8\.A", r"^OnExitHost\.A"],
+    "C02": [r"^lemma\.grammar", r"^OnExitHost\.A", r"^PushPathSegment\.A", r"^FixEmptyTrailSegment\.A", r"^ParseIpFourAddress\.A", r"^Dispatch\.Parse(Authority|OwnHost2|UriReference|UriTail|PartHelperTwo)\.A"],
+    "C03": [r"^Parse[A-Za-z0-9]+\.A\.D$", r"^(FreeUriMembersMm|StopSyntaxMalloc|PushPathSegment)\.A", r"^ParseIpFourAddress\.A"],
+    "C04": [r"^ToString\.content\..*\.A"],
+    "C05": [r"^ToString\.cap\."],
+    "C06": [r"^AddBaseUri\.A"],
+    "C07": [r"^RemoveBaseUri\.A", r"^MakeOwner\.A", r"^NormalizeSyntax\.borrowed\.(scheme-query-fragment|all-short)\.A", r"^PushPathSegment\.A"],
+    "C08": [r"^NormalizeSyntax\..*\.A", r"^NormalizeMaskRequired\..*\.A"],
+    "C09": [r"^NormalizeSyntax\.(borrowed|owned)\.(path|all-short)\.A"],
+    "C10": [r"^RemoveBaseUri\."],
+    "C11": [r"."],
+    "C12": [r"^MakeOwner\.", r"^EqualsUri\.A", r"^ToString\.cap\.regname\.A", r"^NormalizeMaskRequired\.authority\.A"],
+    "C13": [r"^static\.", r"^FreeUriMembersMm\.A", r"^MakeOwner\.A", r"^DissectQuery\.A", r"^uriMemoryManagerIsComplete", r"^AppendQueryItem\.A"],
+    "C14": [r"^MakeOwner\.A", r"^DissectQuery\.A", r"^AppendQueryItem\.A", r"^StopSyntaxMalloc\.A", r"^PushPathSegment\.A", r"^RemoveBaseUri\.A", r"^NormalizeSyntax\.borrowed\.path\.A"],
+    "C15": [r"."],
+    "C16": [r"^EscapeEx\.A\.N", r"^UnescapeInPlaceEx\.A\.N", r"^EscapeEx\.corner", r"Content\.", r"^EscapeRoundTrip\."],
+    "C17": [r"^DissectQuery\.", r"^AppendQueryItem\.A", r"^ComposeQuery\."],
+    "C18": [r"^FilenameToUri", r"^FilenameShortForms\."],
+    "C19": [r"^EqualsUri\.W", r"^CompareRange\.W", r"^ToString\.cap\..*\.W", r"^MakeOwner\.W", r"^RemoveBaseUri\.W", r"^DissectQuery\.W", r"Content\.W", r"^EscapeRoundTrip\.W",
+            r"^OnExitHost\.W", r"^NormalizeMaskRequired\..*\.W", r"^Dispatch\.Parse(PctEncoded|UriReference|OwnHost2|IpFuture)\.W", r"^FilenameShortForms\.W"],
+    "C20": [r"^static\.", r"^EqualsUri\.A", r"^ToString\.cap\.regname\.A", r"^RemoveBaseUri\.A", r"^MakeOwner\.A"],
+}
+
+
+def in_quick(o, prop):
+    return any(_re.search(p, o["id"]) for p in QUICK.get(prop, [r"."]))
